@@ -758,3 +758,22 @@ package silence
 //@   at call state).MarshalBinary assert [state-of-this-store-under-lock] arg0 == s.st && count("RWMutex).RLock") == 1 && count("RWMutex).RUnlock") == 0
 //@   ensures [full-state] result0 == ret("state).MarshalBinary") && result1 == ret1("state).MarshalBinary")
 //@   noeffect state).MarshalBinary
+
+// ---- C02 / C12: a silencer starts with an empty cache over the store it was given (so nothing cached before a
+// restart or reload can be served afterwards).
+//@ func NewSilencer
+//@   props C02
+//@   ensures [empty-cache-over-the-given-store] result != nil && fresh(result) && result.silences == silences && result.cache != nil && fresh(result.cache)
+//@             && result.cache.entries != nil && fresh(result.cache.entries) && len(result.cache.entries) == 0
+//@   assigns nothing
+
+// one silence by query: the first answer of the query, not-found for an empty answer, the query's error otherwise
+//@ func (*Silences).QueryOne
+//@   props C12 C02
+//@   nosafe
+//@   requires ErrNotFound != nil
+//@   at call Silences).Query assert [the-same-parameters] arg0 == s && arg2 == params
+//@   ensures [query-error-is-reported] ret2("Silences).Query") != nil ==> result0 == nil && result1 == ret2("Silences).Query")
+//@   ensures [empty-answer-is-not-found] ret2("Silences).Query") == nil && len(ret("Silences).Query")) == 0 ==> result0 == nil && result1 == ErrNotFound
+//@   ensures [first-answer] ret2("Silences).Query") == nil && len(ret("Silences).Query")) > 0 ==> result0 == ret("Silences).Query")[0] && result1 == nil
+//@   noeffect Silences).Query
